@@ -31,9 +31,9 @@ CLAIMED.update({
 
 CLAIMED.update({
  "C20": dict(
-   text="Structural clauses of the trace-driven NVIDIA pipeline, one table row per hierarchy level (sub-core, SM, GPU, driver): back-pressure discipline at dispatch and report sites, completion propagation (decrement, ==0 test, finished counter, unit returned to the free list by the ID in the message), zero-work completion at every load site, conservation at load and dispatch sites. Parse round-trip of traces is value level and is not decided.",
+   text="Structural clauses of the trace-driven NVIDIA pipeline, one table row per hierarchy level (sub-core, SM, GPU, driver): back-pressure discipline at dispatch and report sites, completion propagation (decrement, ==0 test, finished counter, unit returned to the free list by the ID in the message), zero-work completion at every load site, conservation at load and dispatch sites; the trace-line parser consumes every token for at most one field (symbolic cursor intervals pairwise disjoint). Number formats and field meanings of traces are not decided.",
    ref="4/C20", technique="SSA path analysis (SEND-DISCIPLINE), dominance cuts on counter==0 (GUARD), value provenance (PAIR/FIELDS), table of sibling levels",
-   note="trace parsing and instruction counts as numbers not decided; three zero-work defects found by R20.3 were repaired by a fix: commit"),
+   note="instruction counts as numbers not decided; three zero-work defects found by R20.3 were repaired by a fix: commit"),
 })
 
 CLAIMED.update({
@@ -49,16 +49,16 @@ CLAIMED.update({
 
 CLAIMED.update({
  "C06": dict(
-   text="Lane non-interference argued per vector handler of both ALUs on SSA, for all EXEC masks and all paths: lane loops are 0..63; every lane write, storage access and LDS access uses the loop's lane and is dominated by the CFG edge on which that lane's EXEC bit (from state.EXEC()) is set, with polarity checked; every operand read in a lane loop reads the loop's lane; VCC/EXEC/SCC are used through lane i's own bit only (lane-mask accumulators whose updates touch only the updating lane's bit are recognised); no loop-carried value reaches a lane write; scalar destinations are written outside the loops; scalar handlers do not read EXEC; the lane index is used only as a selector (accessor lane, mask bit position, per-lane array index), never in the arithmetic that produces the written value. Relative to the InstEmuState contract (C07).",
+   text="Lane non-interference argued per vector handler of both ALUs on SSA, for all EXEC masks and all paths: lane loops are 0..63; every lane write, storage access and LDS access uses the loop's lane and is dominated by the CFG edge on which that lane's EXEC bit (from state.EXEC()) is set, with polarity checked; every operand read in a lane loop reads the loop's lane; VCC/EXEC/SCC are used through lane i's own bit only (lane-mask accumulators whose updates touch only the updating lane's bit are recognised); no loop-carried value reaches a lane write; scalar destinations are written outside the loops; scalar handlers do not read EXEC; the lane index is used only as a selector (accessor lane, mask bit position, per-lane array index), never in the arithmetic that produces the written value, and an isolated lane bit is compared with zero only. Relative to the InstEmuState contract (C07).",
    ref="4/C06", technique="SSA dataflow: natural lane loops, dominance of CFG edges (guard with polarity), backward data slices for loop-carried values, lane-mask accumulator recognition, documented-exception table",
-   note="what value a lane computes is not decided; helpers that receive the lane as a parameter are judged at call sites; v_readfirstlane is the only exception (both ALUs); two defects (v_div_scale_f64 SDst, v_cvt_f16_f32 fraction computed from the lane index) found and repaired by fix: commits"),
+   note="what value a lane computes is not decided; helpers that receive the lane as a parameter are judged at call sites; v_readfirstlane is the only exception (both ALUs); three defects (v_div_scale_f64 SDst, v_cvt_f16_f32 fraction computed from the lane index, v_div_fmas_f64 VCC bit compared with 1) found and repaired by fix: commits"),
 })
 
 CLAIMED.update({
  "C04": dict(
-   text="Totality and determinism of decoding decided from the tables and the shape of amd/insts: the format table (mask/encoding consistency, overlap and specificity order, opcode fields) which makes format matching independent of map order and sort stability; the decode table of about 1000 rows evaluated from constant expressions (duplicates, field widths, VOP3b routing, dispatch coverage); every getOperand call site against the computed set of defined operand codes using an interval analysis of the code argument; per-format bounds of every buffer access; size accounting incl. the single literal dword shared by two literal operands; error handling at the three callers. The inverse property decode(encode(d)) = d is value level and not decided.",
+   text="Totality and determinism of decoding decided from the tables and the shape of amd/insts: the format table (mask/encoding consistency, overlap and specificity order, opcode fields) which makes format matching independent of map order and sort stability; the decode table of about 1000 rows evaluated from constant expressions (duplicates, field widths, VOP3b routing, dispatch coverage); every getOperand call site against the computed set of defined operand codes using an interval analysis of the code argument; per-format bounds of every buffer access; size accounting incl. the single literal dword shared by two literal operands and an opcode-specific size step for every mnemonic that carries a 32-bit constant; immutability of the decode tables on the decode path; register families of getOperand covered completely; the single-bit helper; error handling at the three callers. The inverse property decode(encode(d)) = d is value level and not decided.",
    ref="4/C04", technique="constant-table evaluation from the type-checked syntax (TABLE), interval analysis on SSA (INTERVAL), dominance cuts (GUARD), decision-table evaluation of getOperand's switch",
-   note="field extraction positions versus the ISA manuals are not compared; three genuine defects (dropped getOperand errors, unguarded buf[:4], literal dword counted twice in SOP2/SOPC) found and repaired by fix: commits"),
+   note="field extraction positions versus the ISA manuals are not compared; six genuine defects (dropped getOperand errors, unguarded buf[:4], literal dword counted twice in SOP2/SOPC, ttmp11 rejected, GDS bit taken from bit 4, s_setreg_imm32_b32 sized 4 bytes) found and repaired by fix: commits"),
 })
 
 CLAIMED.update({
@@ -70,30 +70,30 @@ CLAIMED.update({
 
 CLAIMED.update({
  "C13": dict(
-   text="Kernel loading decided against an external oracle: the published amd_kernel_code_t and kernel_descriptor_t layouts are transcribed as offset/width tables and every metadata read of both parsers and of the header sniffer is compared with its row (offset, width, slice width, flag bit, signature constants); parser bounds versus what callers establish; precedence of the V5 descriptor over header sniffing; 256 bytes stripped only under a positive sniff; kernel bytes are exactly the named symbol's range of .text; the descriptor is selected by name+.kd, size 64, inside .rodata.",
+   text="Kernel loading decided against an external oracle: the published amd_kernel_code_t and kernel_descriptor_t layouts are transcribed as offset/width tables and every metadata read of both parsers and of the header sniffer is compared with its row (offset, width, slice width, flag bit, signature constants); parser bounds versus what callers establish; precedence of the V5 descriptor over header sniffing; 256 bytes stripped only under a positive sniff; kernel bytes are exactly the named symbol's range of .text; the descriptor is selected by name+.kd, size 64, inside .rodata; symbols are selected by exact name only.",
    ref="4/C13", technique="constant-table comparison against a transcribed specification (TABLE), dominance cuts (GUARD), function-local value provenance",
    note="debug/elf trusted; the register-count override arithmetic and the V5 policy overrides are not decided; the transcription of the two layouts is part of the trusted base (cross-checked against a shipped gfx942 descriptor); three offset defects of parseV5KernelDescriptor recorded as known findings"),
 })
 
 CLAIMED.update({
  "C03": dict(
-   text="ISA rules that are uniform across opcodes and visible in the code shape, for both ALUs and all paths: dispatch integrity of every opcode switch (one handler per case, panicking default, listed functional no-ops only), ALL-OR-NONE of condition-code writes in every handler, shift-amount intervals in every handler of a shift instruction (handlers tied to instruction names through decode table, dispatch switch and callee), destination-only operand writes and PC/EXEC writers restricted by instruction name, carry predicates of carry-in instructions evaluated in 64 bits, every float-to-integer conversion of an operand value reached only after range tests on the floating-point value (and no clamp that the operand's type makes dead), no result variable left at its zero value by an open if/else-if chain. Bit-exact arithmetic conformance needs an executable ISA transcription and is not decided.",
-   ref="4/C03", technique="constant-table evaluation (decode table and dispatch switches), must-pass path analysis (ALL-OR-NONE), interval analysis on SSA (INTERVAL), who-may-write",
-   note="arithmetic, rounding, saturation and comparison semantics of individual opcodes are not decided; defect families found and repaired by fix: commits: one-sided SCC, unmasked shifts, v_cvt_i32_f32 saturation tested after conversion, v_div_scale_f64 default result and denormal classification"),
+   text="ISA rules that are uniform across opcodes and visible in the code shape, for both ALUs and all paths: dispatch integrity of every opcode switch (one handler per case, panicking default, listed functional no-ops only), ALL-OR-NONE of condition-code writes in every handler, shift-amount intervals in every handler of a shift instruction (handlers tied to instruction names through decode table, dispatch switch and callee), destination-only operand writes and PC/EXEC writers restricted by instruction name, carry predicates of carry-in instructions evaluated in 64 bits, every float-to-integer conversion of an operand value reached only after range tests on the floating-point value (and no clamp that the operand's type makes dead), no result variable left at its zero value by an open if/else-if chain; every compare handler decided exactly on the ordering domain {less, equal, greater, unordered} against the truth table its mnemonic prescribes, with kind / signedness / width of the compared values; LDS handlers address ADDR plus their (scaled) offset field. Bit-exact arithmetic conformance needs an executable ISA transcription and is not decided.",
+   ref="4/C03", technique="constant-table evaluation (decode table and dispatch switches), must-pass path analysis (ALL-OR-NONE), interval analysis on SSA (INTERVAL), who-may-write, finite-domain evaluation of comparison skeletons (ORDER-DOMAIN), value provenance of addresses",
+   note="arithmetic, rounding, saturation and comparison semantics of individual opcodes are not decided; defect families found and repaired by fix: commits: one-sided SCC, unmasked shifts, v_cvt_i32_f32 saturation tested after conversion, v_div_scale_f64 default result and denormal classification, compare handlers (lg/nlg NaN, u32 width, CDNA3 ge_f32_e64), ds_read_b64 offset"),
 })
 
 CLAIMED.update({
  "C12": dict(
-   text="Structural conditions whose absence is the lost wake-up, the data race or the reordering, on all paths of amd/driver: capacity >= 1 of every channel targeted by a non-blocking send, the subscribe / test / wait / re-test shape of the drain loop, a guarded-by lockset analysis for five field/mutex pairs, no mixed atomic/plain access, FIFO ownership of the command list (tail append, head removal, index 0), one command at a time per queue, and a frozen inventory of goroutines, multi-way selects, engine runs and signal receivers. Liveness under all interleavings is a model-checking question and is not decided.",
+   text="Structural conditions whose absence is the lost wake-up, the data race or the reordering, on all paths of amd/driver: capacity >= 1 of every channel targeted by a non-blocking send, the subscribe / test / wait / re-test shape of the drain loop, a guarded-by lockset analysis for five field/mutex pairs, no mixed atomic/plain access, FIFO ownership of the command list (tail append, head removal, index 0), one command at a time per queue, a frozen inventory of goroutines, multi-way selects, engine runs and signal receivers, and the runAsync / runEngine hand-off (a run request recorded while the engine is flagged as running is honoured before the flag is cleared). Liveness under all interleavings is a model-checking question and is not decided.",
    ref="4/C12", technique="lockset dataflow on the CFG (guarded-by), dominance cuts (GUARD), who-may-write / shape rules on SSA, inventory of concurrency constructs",
-   note="the engine-exit versus enqueue hand-off race and memory effects between commands are not decided; three defects (unbuffered signal channel, plain read of nextPID, unlocked findContext) found and repaired by fix: commits"),
+   note="memory effects between commands are not decided; four defects (unbuffered signal channel, plain read of nextPID, unlocked findContext, run request lost while the engine leaves Run) found and repaired by fix: commits"),
 })
 
 CLAIMED.update({
  "C10": dict(
-   text="Structural clauses of device memory management on all paths: a lockset analysis of the allocator (every field access under the embedded mutex; helpers reached only from lock-holding call sites), pairing of every page-table write with the allocator's vAddr mirror plus who-may-write the page table, physical addresses taken only from the device memory state, no container mutated while ranged in the driver packages, page-granular cursor and size arithmetic, Free looping over exactly the page count recorded at allocation with a one-page stride, the key shape of the allocator's page maps (process + virtual address), every page's DeviceID derived from its own physical address, and release of the previous physical page when a virtual page is re-homed. Invariants over allocate/free/remap histories are state-machine properties and are not decided.",
+   text="Structural clauses of device memory management on all paths: a lockset analysis of the allocator (every field access under the embedded mutex; helpers reached only from lock-holding call sites), pairing of every page-table write with the allocator's vAddr mirror plus who-may-write the page table, physical addresses taken only from the device memory state, no container mutated while ranged in the driver packages, page-granular cursor and size arithmetic, Free looping over exactly the page count recorded at allocation with a one-page stride, the key shape of the allocator's page maps (process + virtual address), every page's DeviceID derived from its own physical address, release of the previous physical page when a virtual page is re-homed, and the buddy allocator's parent merge bit flipped for every block taken from a free list. Invariants over allocate/free/remap histories are state-machine properties and are not decided.",
    ref="4/C10", technique="lockset dataflow with call-site propagation (guarded-by), PAIR and who-may-write on SSA, syntactic range-mutation rule, value provenance of cursor arithmetic",
-   note="disjointness of live physical pages over histories and the buddy allocator's internal state are not decided; four defects (stale mirror entry on free, mutate-while-ranging in removeFreedBuffers, Free releasing only the first page, remapped pages recorded on a unified device) repaired by fix: commits; three known findings (mirror keyed without the PID; old physical page leaked by Remap and by migration)"),
+   note="disjointness of live physical pages over histories and the buddy allocator's internal state are not decided; five defects (stale mirror entry on free, mutate-while-ranging in removeFreedBuffers, Free releasing only the first page, remapped pages recorded on a unified device, buddy merge bit) repaired by fix: commits; three known findings (mirror keyed without the PID; old physical page leaked by Remap and by migration)"),
 })
 
 CLAIMED.update({
